@@ -245,6 +245,28 @@ func (c *Ctx) link(anchors map[string]bool) {
 				c.failureRet[s.call] = F
 			}
 		}
+		// a helper that merely forwards a multi-value call (`return f(…)`): the caller's variables are
+		// the results of that inner call
+		if nres := sig.Results().Len(); nres >= 2 {
+			if rets := h.returnsOf(); len(rets) == 1 && len(rets[0].Results) == 1 {
+				if inner, ok := ast.Unparen(rets[0].Results[0]).(*ast.CallExpr); ok {
+					if as, ok := s.from.parent[s.call].(*ast.AssignStmt); ok && len(as.Rhs) == 1 && len(as.Lhs) == nres {
+						for i := 0; i < nres; i++ {
+							v := s.from.varOf(as.Lhs[i])
+							if v == nil {
+								continue
+							}
+							ds := s.from.defs[v]
+							for j := range ds {
+								if ds[j].rhs == ast.Expr(s.call) && ds[j].idx == i {
+									ds[j].rhs = inner
+								}
+							}
+						}
+					}
+				}
+			}
+		}
 		if nres := sig.Results().Len(); nres >= 2 {
 			if as, ok := s.from.parent[s.call].(*ast.AssignStmt); ok && len(as.Rhs) == 1 && len(as.Lhs) == nres {
 				if S := uniqueSuccessReturn(h, nres); S != nil {
